@@ -946,7 +946,7 @@ class Prog:
             else:
                 ex, _, _ = self.expr(inner, 1)
                 self.emit(ind + 2, 'yield ' + ex)
-            if self.chance(0.2):
+            if self.chance(0.3):
                 ex, _, _ = self.expr(inner, 1)
                 self.emit(ind + 2, 'yield ' + ex)
                 per = 2
